@@ -7,7 +7,8 @@ Inductive ev :=
 | EvCall (now : Z) (o : xout)        (* o = what the function does if it is executed for this call *)
 | EvDone (now : Z) (o : xout).       (* the pending background refresh completes, having done o *)
 Inductive deco :=
-| DEarly (ttl ettl : Z) (bg : bool) | DSoft (ttl sttl : Z) | DFail (ttl : Z) | DHit (ttl hits upd : Z) (bg : bool).
+| DEarly (ttl ettl : Z) (bg : bool) | DSoft (ttl sttl : Z) | DFail (ttl : Z) | DHit (ttl hits upd : Z) (bg : bool)
+| DFailC (ttl : Z).     (* failover whose store condition raises the listed exception on odd results *)
 (* observation per event: what the caller got, what happened to the function (EvDone: RVal 0, ENone) *)
 Definition obs := (cres * eact)%type.
 Inductive case := CStrat (d : deco) (h : list ev) (o : list obs).
@@ -21,6 +22,7 @@ Definition step (d : deco) (m : tmap) (e : ev) : tmap * obs :=
   | DEarly ttl ettl _, EvDone now o => (early_refresh_done m now K ttl ettl o, (RVal 0, ENone))
   | DSoft ttl sttl, EvCall now o => let '(m', r, ex) := soft_call m now K ttl sttl o in (m', (r, b2act ex))
   | DFail ttl, EvCall now o => let '(m', r, ex) := fail_call m now K ttl o in (m', (r, b2act ex))
+  | DFailC ttl, EvCall now o => let '(m', r, ex) := failc_call m now K ttl o in (m', (r, b2act ex))
   | DHit ttl hits upd bg, EvCall now o => let '(m', r, a) := hit_call m now K ttl hits upd bg o in (m', (r, a))
   | DHit ttl _ _ _, EvDone now o => (hit_save m now K ttl o, (RVal 0, ENone))
   | _, EvDone _ _ => (m, (RVal 0, ENone))
@@ -99,6 +101,23 @@ Fixpoint ok_fail ttl (st : option (Z * Z)) (h : list ev) (o : list obs) : bool :
   | _, _ => false
   end.
 
+(* the function returned but the store condition raised: the caller sees that exception, never the stored result *)
+Definition cond_raises (x : xout) : bool := match x with XOk i => Z.odd i | _ => false end.
+Fixpoint ok_failc ttl (st : option (Z * Z)) (h : list ev) (o : list obs) : bool :=
+  match h, o with
+  | [], [] => true
+  | EvDone _ _ :: h', _ :: o' => ok_failc ttl st h' o'
+  | EvCall now x :: h', (r, a) :: o' =>
+      eact_eqb a EExec &&
+      (if cond_raises x then cres_eqb r (RRaise 1) && ok_failc ttl st h' o'
+       else cres_eqb r (match x with
+                        | XOk i => RVal i
+                        | XExc e => if listed e then match stored_live ttl now st with Some (_, id) => RVal id | None => RRaise e end
+                                    else RRaise e
+                        end) && ok_failc ttl (st_after now x st) h' o')
+  | _, _ => false
+  end.
+
 (* served = number of calls answered from the store since the last store *)
 Fixpoint ok_hit ttl hits upd (st : option (Z * Z)) (served : Z) (h : list ev) (o : list obs) : bool :=
   match h, o with
@@ -129,6 +148,7 @@ Definition judge (c : case) : verdict :=
        | DEarly ttl ettl _ => ok_early ttl ettl None None h o
        | DSoft ttl sttl => ok_soft ttl sttl None h o
        | DFail ttl => ok_fail ttl None h o
+       | DFailC ttl => ok_failc ttl None h o
        | DHit ttl hits upd _ => ok_hit ttl hits upd None 0 h o
        end, [])
   end.
